@@ -1,6 +1,7 @@
 import QuartzModel.Proofs.TransLoopLemmas
 import QuartzModel.Proofs.FaultsLemmas
 import QuartzModel.Theorems.C15
+import QuartzModel.Theorems.C15F4
 import QuartzModel.Theorems.C05
 /-!
 # The translated execution loop (`Generated.TransLoop`, regenerated from quartz/scheduler.go by `gotolean-loop`) IS the
@@ -20,7 +21,8 @@ dispatched = the `execute`/`spawn`/`send` event, new state = the loop-carried `r
 * `trans_iter_facts`        : … in particular for `S := Generated.Faults.shape` (the string facts of the extractor)
 * `trans_iter_exit`, `trans_Reset`, `trans_init` : the `ctx.Done()` case, `Reset()`, the statements before the loop
 * `trans_runLoop`, `trans_runQ` : the iteration iterated = `Faults.runLoop` / `Faults.runQ`
-* transfers: `C15_backoff_step_trans`, `C15_deadline_not_postponed_trans`, `C15_no_double_fire_trans`
+* transfers: `C15_backoff_step_trans`, `C15_backoff_trans`, `C15_size_retry_kept_trans`, `C15_deadline_not_postponed_trans`,
+  `C15_no_double_fire_trans`
 -/
 set_option linter.unusedSimpArgs false
 
@@ -55,13 +57,13 @@ theorem trans_calculateNextTick (eE eO : Err) (hE : errorsIs (some eE) (some Err
     (hov : ∀ f, i.head = .ok f → f > i.now2 → i64 (f - i.now2) = f - i.now2) :
     calculateNextTick (scriptQ eE eO i) (scriptT trig) (envOf c b w) (inpOf i dsel tstop) σ =
       ({ queue := σ.queue.call .head i.head.outcome, trigs := σ.trigs, out := σ.out ++ calcLogs i.head },
-        calcNextTick theShape c i.head i.now2) :=
+        (calcNextTick theShape c i.head i.now2, if i.head = .err then some eO else none)) :=
   calculateNextTick_spec eE eO hE hO trig c b w i _ rfl σ hov
 
 /-- **`executeAndReschedule` = `Faults.fetch`** (see `executeAndReschedule_spec`) -/
 theorem trans_executeAndReschedule (eE eO : Err) (hE : errorsIs (some eE) (some ErrQueueEmpty) = true)
     (hO : errorsIs (some eO) (some ErrQueueEmpty) = false) (trig : Trig) (c : Cfg) (b : Bool) (w : Int) (i : In)
-    (dsel : executeAndReschedule.Sel1) (tstop : Bool) (σ : LSt SQ Unit) (hn : σ.queue.nSize ≠ 0)
+    (dsel : executeAndReschedule.Sel1) (tstop : Bool) (σ : LSt SQ Unit)
     (hov : i64 (i.nowVal - c.thr) = i.nowVal - c.thr)
     (hmode : b = true ∨ w ≤ 0 ∨ dsel = .send_dispatch) :
     let F := fetch theShape c trig i
@@ -73,7 +75,7 @@ theorem trans_executeAndReschedule (eE eO : Err) (hE : errorsIs (some eE) (some 
     r.1.out.filterMap dispOf = σ.out.filterMap dispOf ++ (match F.dispatched with | some e => [(ofEntry e).job] | none => []) ∧
     r.2.isSome = F.retErr ∧
     r.1.out.filterMap intrOf = σ.out.filterMap intrOf :=
-  executeAndReschedule_spec eE eO hE hO trig c b w i _ rfl σ hn hov (by simpa [inpOf] using hmode)
+  executeAndReschedule_spec eE eO hE hO trig c b w i _ rfl σ hov (by simpa [inpOf] using hmode)
 
 /-- **ONE ITERATION of the translated `startExecutionLoop` = `Faults.iter`**, for every well-formed shape `S` (there is exactly one:
     `wf_eq`), every configuration with `M = maxTimerDuration`, every trigger function, every loop state, EVERY model input `i`
@@ -96,107 +98,126 @@ theorem trans_iter_core (S : Shape) (hS : WF S) (c : Cfg) (hM : c.M = maxDur) (t
       r.1.out.filterMap intrOf = (if i.interrupted then [true] else []) := by
   rw [wf_eq S hS]
   intro r
-  have X := fun σ hn => executeAndReschedule_spec eE eO hE hO trig c b w i (inpOf i dsel tstop) rfl σ hn hov3
+  have X := fun σ => executeAndReschedule_spec eE eO hE hO trig c b w i (inpOf i dsel tstop) rfl σ hov3
     (by simpa [inpOf] using hmode)
   have C := fun σ => calculateNextTick_spec eE eO hE hO trig c b w i (inpOf i dsel tstop) rfl σ hov2
-  have X1 : ∀ σ : LSt SQ Unit, σ.queue.nSize ≠ 0 → (executeAndReschedule (scriptQ eE eO i) (scriptT trig) (envOf c b w) (inpOf i dsel tstop) σ).1.queue.log = σ.queue.log ++ (fetch theShape c trig i).calls := fun σ hn => (X σ hn).1
-  have X2 : ∀ σ : LSt SQ Unit, σ.queue.nSize ≠ 0 → (executeAndReschedule (scriptQ eE eO i) (scriptT trig) (envOf c b w) (inpOf i dsel tstop) σ).1.queue.popped = (match (fetch theShape c trig i).popped with | some e => some (ofEntry e) | none => σ.queue.popped) := fun σ hn => (X σ hn).2.1
-  have X3 : ∀ σ : LSt SQ Unit, σ.queue.nSize ≠ 0 → (executeAndReschedule (scriptQ eE eO i) (scriptT trig) (envOf c b w) (inpOf i dsel tstop) σ).1.queue.pushed = (match (fetch theShape c trig i).pushed with | some e => some (ofEntry e) | none => σ.queue.pushed) := fun σ hn => (X σ hn).2.2.1
-  have X4 : ∀ σ : LSt SQ Unit, σ.queue.nSize ≠ 0 → (executeAndReschedule (scriptQ eE eO i) (scriptT trig) (envOf c b w) (inpOf i dsel tstop) σ).1.out.filterMap resetOf = σ.out.filterMap resetOf := fun σ hn => (X σ hn).2.2.2.1
-  have X5 : ∀ σ : LSt SQ Unit, σ.queue.nSize ≠ 0 → (executeAndReschedule (scriptQ eE eO i) (scriptT trig) (envOf c b w) (inpOf i dsel tstop) σ).1.out.filterMap dispOf = σ.out.filterMap dispOf ++ (match (fetch theShape c trig i).dispatched with | some e => [(ofEntry e).job] | none => []) := fun σ hn => (X σ hn).2.2.2.2.1
-  have X6 : ∀ σ : LSt SQ Unit, σ.queue.nSize ≠ 0 → (executeAndReschedule (scriptQ eE eO i) (scriptT trig) (envOf c b w) (inpOf i dsel tstop) σ).2.isSome = (fetch theShape c trig i).retErr := fun σ hn => (X σ hn).2.2.2.2.2.1
-  have X7 : ∀ σ : LSt SQ Unit, σ.queue.nSize ≠ 0 → (executeAndReschedule (scriptQ eE eO i) (scriptT trig) (envOf c b w) (inpOf i dsel tstop) σ).1.out.filterMap intrOf = σ.out.filterMap intrOf := fun σ hn => (X σ hn).2.2.2.2.2.2
+  have X1 : ∀ σ : LSt SQ Unit, (executeAndReschedule (scriptQ eE eO i) (scriptT trig) (envOf c b w) (inpOf i dsel tstop) σ).1.queue.log = σ.queue.log ++ (fetch theShape c trig i).calls := fun σ => (X σ).1
+  have X2 : ∀ σ : LSt SQ Unit, (executeAndReschedule (scriptQ eE eO i) (scriptT trig) (envOf c b w) (inpOf i dsel tstop) σ).1.queue.popped = (match (fetch theShape c trig i).popped with | some e => some (ofEntry e) | none => σ.queue.popped) := fun σ => (X σ).2.1
+  have X3 : ∀ σ : LSt SQ Unit, (executeAndReschedule (scriptQ eE eO i) (scriptT trig) (envOf c b w) (inpOf i dsel tstop) σ).1.queue.pushed = (match (fetch theShape c trig i).pushed with | some e => some (ofEntry e) | none => σ.queue.pushed) := fun σ => (X σ).2.2.1
+  have X4 : ∀ σ : LSt SQ Unit, (executeAndReschedule (scriptQ eE eO i) (scriptT trig) (envOf c b w) (inpOf i dsel tstop) σ).1.out.filterMap resetOf = σ.out.filterMap resetOf := fun σ => (X σ).2.2.2.1
+  have X5 : ∀ σ : LSt SQ Unit, (executeAndReschedule (scriptQ eE eO i) (scriptT trig) (envOf c b w) (inpOf i dsel tstop) σ).1.out.filterMap dispOf = σ.out.filterMap dispOf ++ (match (fetch theShape c trig i).dispatched with | some e => [(ofEntry e).job] | none => []) := fun σ => (X σ).2.2.2.2.1
+  have X6 : ∀ σ : LSt SQ Unit, (executeAndReschedule (scriptQ eE eO i) (scriptT trig) (envOf c b w) (inpOf i dsel tstop) σ).2.isSome = (fetch theShape c trig i).retErr := fun σ => (X σ).2.2.2.2.2.1
+  have X7 : ∀ σ : LSt SQ Unit, (executeAndReschedule (scriptQ eE eO i) (scriptT trig) (envOf c b w) (inpOf i dsel tstop) σ).1.out.filterMap intrOf = σ.out.filterMap intrOf := fun σ => (X σ).2.2.2.2.2.2
   clear X
   have D := fetch_dispatched_popped theShape c trig i
   have T : (decide ((Op.pop, Outcome.err) ∈ (fetch theShape c trig i).calls) ||
       decide ((Op.push, Outcome.err) ∈ (fetch theShape c trig i).calls)) = (fetch theShape c trig i).tickErr := by
     simpa using (fetch_tickErr_calls theShape c trig i).symm
-  cases hsz : i.size with
-  | none =>
+  -- the first call of `fetch` is a `Pop()`: while backing off the log does not start with a `Size()` error, and it has no `Head()`
+  have F1 : ((fetch theShape c trig i).calls.head? = some (Op.size, Outcome.err)) = False := by
+    obtain ⟨o', ho'⟩ := fetch_calls_head theShape c trig i
+    simp [ho']
+  obtain ⟨fl, ra⟩ := st
+  -- is the loop backing off?
+  have hcase : (∃ rr, ra = some rr ∧ i.now1 < rr) ∨ inBackoff theShape ⟨fl, ra⟩ i.now1 = false := by
+    cases ra with
+    | none => right; simp [inBackoff]
+    | some rr =>
+      by_cases hlt : i.now1 < rr
+      · exact Or.inl ⟨rr, rfl, hlt⟩
+      · right; simp [inBackoff, hlt]
+  rcases hcase with ⟨rr, rfl, hlt⟩ | hnb
+  · -- backing off: no `Size()`, no `Head()`; the timer is armed for the deadline
+    have h1 := hov1 rr rfl hlt
     cases hint : i.interrupted with
     | true =>
       cases tstop <;>
-      simp [r, startExecutionLoop.iter, hint, hsz, scriptQ_Size, σ0, LSt.callQ, LSt.emit, SQ.call, absOut, Faults.iter,
-        chooseArm, afterTick, -List.head?_filterMap, List.filterMap_cons]
+      simp [r, startExecutionLoop.iter, hint, σ0, LSt.callQ, LSt.emit, SQ.call, absOut, Faults.iter,
+        chooseArm, skipsSize, afterArm, afterTick, inBackoff, Time.Before, Time.Until, Time.Sub, Time.zero, Time.now, Time.Add,
+        -List.head?_filterMap, List.filterMap_cons, hlt, h1]
     | false =>
       cases hre : (fetch theShape c trig i).retErr <;>
-      simp [r, startExecutionLoop.iter, hint, hre, hsz, scriptQ_Size, σ0, LSt.callQ, LSt.emit, SQ.call, absOut, Faults.iter,
-        chooseArm, afterTick, X1, X2, X3, X4, X5, X6, X7, T, Time.Add, Time.now, -List.head?_filterMap, List.filterMap_cons] <;>
+      simp [r, startExecutionLoop.iter, hint, σ0, LSt.callQ, LSt.emit, SQ.call, absOut, Faults.iter,
+        chooseArm, skipsSize, afterArm, afterTick, inBackoff, Time.Before, Time.Until, Time.Sub, Time.zero, Time.now, Time.Add,
+        X1, X2, X3, X4, X5, X6, X7, T, F1, -List.head?_filterMap, List.filterMap_cons, hre, hlt, h1] <;>
       exact tick_tail _ D
-  | some n =>
-    obtain ⟨fl, ra⟩ := st
-    cases ra with
+  · -- not backing off: the iteration starts with `Size()`
+    have hB : Time.Before (some i.now1) ra = false := by
+      cases ra with
+      | none => simp [Time.Before]
+      | some rr => simpa [Time.Before, inBackoff] using hnb
+    have hsk : skipsSize theShape ⟨fl, ra⟩ i.now1 = false := by simp [skipsSize, hnb]
+    cases hsz : i.size with
     | none =>
+      cases hint : i.interrupted with
+      | true =>
+        cases tstop <;>
+        simp [r, startExecutionLoop.iter, hint, hsz, hB, hsk, hnb, scriptQ_Size, σ0, LSt.callQ, LSt.emit, SQ.call, absOut,
+          Faults.iter, chooseArm, afterArm, afterTick, Time.now, Time.Add, -List.head?_filterMap, List.filterMap_cons]
+      | false =>
+        cases hre : (fetch theShape c trig i).retErr <;>
+        simp [r, startExecutionLoop.iter, hint, hre, hsz, hB, hsk, hnb, scriptQ_Size, σ0, LSt.callQ, LSt.emit, SQ.call, absOut,
+          Faults.iter, chooseArm, afterArm, afterTick, X1, X2, X3, X4, X5, X6, X7, T, Time.Add, Time.now,
+          -List.head?_filterMap, List.filterMap_cons] <;>
+        exact tick_tail _ D
+    | some n =>
       cases n with
       | zero =>
         cases hint : i.interrupted with
         | true =>
           cases tstop <;>
-          simp [r, startExecutionLoop.iter, hint, hsz, scriptQ_Size, σ0, LSt.callQ, LSt.emit, SQ.call, absOut, Faults.iter,
-          chooseArm, afterTick, inBackoff, Time.Before, Time.Until, Time.Sub, Time.zero, Time.now, Time.Add, hM, maxDur, C,
-          X1, X2, X3, X4, X5, X6, X7, T, -List.head?_filterMap, List.filterMap_cons]
+          simp [r, startExecutionLoop.iter, hint, hsz, hB, hsk, hnb, scriptQ_Size, σ0, LSt.callQ, LSt.emit, SQ.call, absOut,
+            Faults.iter, chooseArm, afterArm, afterTick, Time.now, Time.Add, hM, maxDur,
+            -List.head?_filterMap, List.filterMap_cons]
         | false =>
           cases hre : (fetch theShape c trig i).retErr <;>
-          simp [r, startExecutionLoop.iter, hint, hsz, scriptQ_Size, σ0, LSt.callQ, LSt.emit, SQ.call, absOut, Faults.iter,
-          chooseArm, afterTick, inBackoff, Time.Before, Time.Until, Time.Sub, Time.zero, Time.now, Time.Add, hM, maxDur, C,
-          X1, X2, X3, X4, X5, X6, X7, T, -List.head?_filterMap, List.filterMap_cons, hre] <;>
+          simp [r, startExecutionLoop.iter, hint, hsz, hB, hsk, hnb, scriptQ_Size, σ0, LSt.callQ, LSt.emit, SQ.call, absOut,
+            Faults.iter, chooseArm, afterArm, afterTick, Time.now, Time.Add, hM, maxDur,
+            X1, X2, X3, X4, X5, X6, X7, T, -List.head?_filterMap, List.filterMap_cons, hre] <;>
           exact tick_tail _ D
       | succ n =>
         have hne : ¬ ((n : Int) + 1 = 0) := by omega
-        cases hint : i.interrupted with
-        | true =>
-          cases tstop <;>
-          simp [r, startExecutionLoop.iter, hint, hsz, scriptQ_Size, σ0, LSt.callQ, LSt.emit, SQ.call, absOut, Faults.iter,
-          chooseArm, afterTick, inBackoff, Time.Before, Time.Until, Time.Sub, Time.zero, Time.now, Time.Add, hM, maxDur, C,
-          X1, X2, X3, X4, X5, X6, X7, T, -List.head?_filterMap, List.filterMap_cons, hne]
-        | false =>
-          cases hre : (fetch theShape c trig i).retErr <;>
-          simp [r, startExecutionLoop.iter, hint, hsz, scriptQ_Size, σ0, LSt.callQ, LSt.emit, SQ.call, absOut, Faults.iter,
-          chooseArm, afterTick, inBackoff, Time.Before, Time.Until, Time.Sub, Time.zero, Time.now, Time.Add, hM, maxDur, C,
-          X1, X2, X3, X4, X5, X6, X7, T, -List.head?_filterMap, List.filterMap_cons, hne, hre] <;>
-          exact tick_tail _ D
-    | some rr =>
-      by_cases hlt : i.now1 < rr
-      · have h1 := hov1 rr rfl hlt
-        cases hint : i.interrupted with
-        | true =>
-          cases tstop <;>
-          simp [r, startExecutionLoop.iter, hint, hsz, scriptQ_Size, σ0, LSt.callQ, LSt.emit, SQ.call, absOut, Faults.iter,
-          chooseArm, afterTick, inBackoff, Time.Before, Time.Until, Time.Sub, Time.zero, Time.now, Time.Add, hM, maxDur, C,
-          X1, X2, X3, X4, X5, X6, X7, T, -List.head?_filterMap, List.filterMap_cons, hlt, h1]
-        | false =>
-          cases hre : (fetch theShape c trig i).retErr <;>
-          simp [r, startExecutionLoop.iter, hint, hsz, scriptQ_Size, σ0, LSt.callQ, LSt.emit, SQ.call, absOut, Faults.iter,
-          chooseArm, afterTick, inBackoff, Time.Before, Time.Until, Time.Sub, Time.zero, Time.now, Time.Add, hM, maxDur, C,
-          X1, X2, X3, X4, X5, X6, X7, T, -List.head?_filterMap, List.filterMap_cons, hre, hlt, h1] <;>
-          exact tick_tail _ D
-      · cases n with
-        | zero =>
+        cases hhd : i.head with
+        | err =>
           cases hint : i.interrupted with
           | true =>
             cases tstop <;>
-            simp [r, startExecutionLoop.iter, hint, hsz, scriptQ_Size, σ0, LSt.callQ, LSt.emit, SQ.call, absOut, Faults.iter,
-          chooseArm, afterTick, inBackoff, Time.Before, Time.Until, Time.Sub, Time.zero, Time.now, Time.Add, hM, maxDur, C,
-          X1, X2, X3, X4, X5, X6, X7, T, -List.head?_filterMap, List.filterMap_cons, hlt]
+            simp [r, startExecutionLoop.iter, hint, hsz, hhd, hB, hsk, hnb, scriptQ_Size, σ0, LSt.callQ, LSt.emit, SQ.call,
+              absOut, Faults.iter, chooseArm, afterArm, afterTick, Time.now, Time.Add, C, calcLogs, calcNextTick, Res.outcome,
+              -List.head?_filterMap, List.filterMap_cons, hne]
           | false =>
             cases hre : (fetch theShape c trig i).retErr <;>
-            simp [r, startExecutionLoop.iter, hint, hsz, scriptQ_Size, σ0, LSt.callQ, LSt.emit, SQ.call, absOut, Faults.iter,
-          chooseArm, afterTick, inBackoff, Time.Before, Time.Until, Time.Sub, Time.zero, Time.now, Time.Add, hM, maxDur, C,
-          X1, X2, X3, X4, X5, X6, X7, T, -List.head?_filterMap, List.filterMap_cons, hre, hlt] <;>
+            simp [r, startExecutionLoop.iter, hint, hsz, hhd, hB, hsk, hnb, scriptQ_Size, σ0, LSt.callQ, LSt.emit, SQ.call,
+              absOut, Faults.iter, chooseArm, afterArm, afterTick, Time.now, Time.Add, C, calcLogs, calcNextTick, Res.outcome,
+              X1, X2, X3, X4, X5, X6, X7, T, -List.head?_filterMap, List.filterMap_cons, hne, hre] <;>
             exact tick_tail _ D
-        | succ n =>
-          have hne : ¬ ((n : Int) + 1 = 0) := by omega
+        | empty =>
           cases hint : i.interrupted with
           | true =>
             cases tstop <;>
-            simp [r, startExecutionLoop.iter, hint, hsz, scriptQ_Size, σ0, LSt.callQ, LSt.emit, SQ.call, absOut, Faults.iter,
-          chooseArm, afterTick, inBackoff, Time.Before, Time.Until, Time.Sub, Time.zero, Time.now, Time.Add, hM, maxDur, C,
-          X1, X2, X3, X4, X5, X6, X7, T, -List.head?_filterMap, List.filterMap_cons, hne, hlt]
+            simp [r, startExecutionLoop.iter, hint, hsz, hhd, hB, hsk, hnb, scriptQ_Size, σ0, LSt.callQ, LSt.emit, SQ.call,
+              absOut, Faults.iter, chooseArm, afterArm, afterTick, Time.now, Time.Add, C, calcLogs, calcNextTick, Res.outcome,
+              -List.head?_filterMap, List.filterMap_cons, hne]
           | false =>
             cases hre : (fetch theShape c trig i).retErr <;>
-            simp [r, startExecutionLoop.iter, hint, hsz, scriptQ_Size, σ0, LSt.callQ, LSt.emit, SQ.call, absOut, Faults.iter,
-          chooseArm, afterTick, inBackoff, Time.Before, Time.Until, Time.Sub, Time.zero, Time.now, Time.Add, hM, maxDur, C,
-          X1, X2, X3, X4, X5, X6, X7, T, -List.head?_filterMap, List.filterMap_cons, hne, hre, hlt] <;>
+            simp [r, startExecutionLoop.iter, hint, hsz, hhd, hB, hsk, hnb, scriptQ_Size, σ0, LSt.callQ, LSt.emit, SQ.call,
+              absOut, Faults.iter, chooseArm, afterArm, afterTick, Time.now, Time.Add, C, calcLogs, calcNextTick, Res.outcome,
+              X1, X2, X3, X4, X5, X6, X7, T, -List.head?_filterMap, List.filterMap_cons, hne, hre] <;>
+            exact tick_tail _ D
+        | ok f =>
+          have C' := C
+          simp only [hhd] at C'
+          cases hint : i.interrupted with
+          | true =>
+            cases tstop <;>
+            simp [r, startExecutionLoop.iter, hint, hsz, hhd, hB, hsk, hnb, scriptQ_Size, σ0, LSt.callQ, LSt.emit, SQ.call,
+              absOut, Faults.iter, chooseArm, afterArm, afterTick, Time.now, Time.Add, C', calcLogs, Res.outcome,
+              -List.head?_filterMap, List.filterMap_cons, hne]
+          | false =>
+            cases hre : (fetch theShape c trig i).retErr <;>
+            simp [r, startExecutionLoop.iter, hint, hsz, hhd, hB, hsk, hnb, scriptQ_Size, σ0, LSt.callQ, LSt.emit, SQ.call,
+              absOut, Faults.iter, chooseArm, afterArm, afterTick, Time.now, Time.Add, C', calcLogs, Res.outcome,
+              X1, X2, X3, X4, X5, X6, X7, T, -List.head?_filterMap, List.filterMap_cons, hne, hre] <;>
             exact tick_tail _ D
 
 /-- the translated iteration, read back as a model `Out` -/
@@ -257,14 +278,15 @@ theorem trans_arm (p : Par) (c : Cfg) (hM : c.M = maxDur) (trig : Trig) (st : BS
   cases i.interrupted <;> rfl
 
 /-- **the exit path**: when `ctx.Done()` fires, the iteration stops the timer, hands the interrupt token on (`Reset()`: one
-    non-blocking send), leaves `retryAt` alone, and ends the loop: these four events are the last ones recorded, for ANY queue / trigger externals. (The model `Faults.iter` has no such case.) -/
+    non-blocking send) and ends the loop: these four events are the last ones recorded, for ANY queue / trigger externals. (The model
+    `Faults.iter` has no such case; `retryAt`, which the arming part of the iteration may have set, is dead after the `return`.) -/
 theorem trans_iter_exit {Q H M : Type} (JQ : JobQueueExt Q M) (TR : TriggerExt H) (env : Env) (inp : Inputs) (σ : LSt Q H)
     (retryAt : Time) (hsel : inp.startExecutionLoop_sel1 = .recv_ctx_Done) :
     let r := startExecutionLoop.iter JQ TR env inp σ retryAt
-    r.2.2 = false ∧ r.2.1 = retryAt ∧
+    r.2.2 = false ∧
     [.recv "ctx.Done()", .log "Info" "Exit the execution loop", .timerStop, .trySend "sched.interrupt"] <:+ r.1.out := by
   simp only [startExecutionLoop.iter, hsel, Reset, LSt.emit, List.append_assoc, List.cons_append, List.nil_append]
-  exact ⟨trivial, trivial, List.suffix_append _ _⟩
+  exact ⟨trivial, List.suffix_append _ _⟩
 
 /-- `Reset()` is one non-blocking send on `sched.interrupt` and nothing else — the fact `Generated.Wakeup.resetNonBlocking`
     of the wake-up model (C05), here read off the translated code -/
@@ -333,40 +355,63 @@ theorem trans_runQ (p : Par) (S : Shape) (hS : WF S) (c : Cfg) (hM : c.M = maxDu
 
 /-! ## Transfers: the C15 theorems hold of the translated iteration -/
 
-/-- `C15_backoff_step` for the TRANSLATED iteration: (1) a failing `Size()`/`Head()` arms `RetryInterval`; (2) a failing
-    `Pop()`/`Push()` sets `retryAt` to the clock reading plus `RetryInterval`; (3) before the deadline the timer is armed for
-    exactly the deadline; (4) an interrupt leaves `retryAt` as it is. No shape parameter, no extracted fact. -/
+/-- `C15_backoff_step` for the TRANSLATED iteration: (1) a failing `Size()`/`Head()` arms `RetryInterval` and sets `retryAt` to its
+    clock reading plus `RetryInterval`; (2) a failing `Pop()`/`Push()` sets `retryAt` to the clock reading plus `RetryInterval`;
+    (3) before the deadline the timer is armed for exactly the deadline and the queue is asked nothing before the `select` — no
+    `Size()`, no `Head()`; (4) an interrupted iteration without such an error leaves `retryAt` as it is. No shape parameter, no
+    extracted fact. -/
 theorem C15_backoff_step_trans (p : Par) (c : Cfg) (hM : c.M = maxDur) (trig : Trig) (st : BState) (i : In)
     (hov : NoOvf c st i) :
-    ((p.iter trig c st i).armErr = true → (p.iter trig c st i).armed = c.R) ∧
+    ((p.iter trig c st i).armErr = true → (p.iter trig c st i).armed = c.R ∧
+      (i.interrupted = true → (p.iter trig c st i).st.retryAt = some (i.now2 + c.R)) ∧
+      (i.now2 ≤ i.nowErr → ∃ r', (p.iter trig c st i).st.retryAt = some r' ∧ i.now2 + c.R ≤ r')) ∧
     ((p.iter trig c st i).tickErr = true →
       i.interrupted = false ∧ (p.iter trig c st i).st.retryAt = some (i.nowErr + c.R)) ∧
-    (∀ n r, i.size = some n → st.retryAt = some r → i.now1 < r → i.now2 + (p.iter trig c st i).armed = r) ∧
-    (i.interrupted = true → (p.iter trig c st i).st = st) := by
+    (∀ r, st.retryAt = some r → i.now1 < r → i.now2 + (p.iter trig c st i).armed = r ∧
+      (p.iter trig c st i).armErr = false ∧
+      (p.iter trig c st i).calls = (if i.interrupted then [] else (fetch theShape c trig i).calls)) ∧
+    (i.interrupted = true → (p.iter trig c st i).armErr = false → (p.iter trig c st i).st = st) := by
   rw [trans_iter p theShape theShape_wf c hM trig st i hov]
   exact C15_backoff_step theShape theShape_wf c trig st i
 
-/-- `C15_backoff` for the translated loop -/
+/-- `C15_backoff` for the translated loop: after a loop-side error no later iteration ticks, and none asks `Size()`, before
+    `RetryInterval` has passed — whatever interrupts arrive -/
 theorem C15_backoff_trans (p : Par) (c : Cfg) (hM : c.M = maxDur) (trig : Trig) (st0 : BState) (prev : Int) (ins : List In)
     (hov : NoOvfRun c trig st0 ins) (hwt : WellTimed theShape c trig st0 prev ins) (k : Nat) (ik : In) (ok : Out)
     (hik : ins[k]? = some ik) (hok : (p.runLoop trig c st0 ins).1[k]? = some ok) :
-    (ok.armErr = true → ik.interrupted = false → ik.tArm + c.R ≤ ik.tickAt) ∧
-    (ok.tickErr = true → ∀ j ij, k < j → ins[j]? = some ij → ij.interrupted = false →
-      ik.nowErr + c.R ≤ ij.tickAt) := by
-  rw [trans_runLoop p theShape theShape_wf c hM trig st0 ins hov] at hok
+    (ok.armErr = true → (ik.interrupted = false → ik.tArm + c.R ≤ ik.tickAt) ∧
+      ∀ j ij oj, k < j → ins[j]? = some ij → (p.runLoop trig c st0 ins).1[j]? = some oj →
+        (ij.interrupted = false → ik.now2 + c.R ≤ ij.tickAt) ∧
+        (∀ o, oj.calls.head? = some (.size, o) → ik.now2 + c.R ≤ ij.now1)) ∧
+    (ok.tickErr = true → ∀ j ij, k < j → ins[j]? = some ij →
+      (ij.interrupted = false → ik.nowErr + c.R ≤ ij.tickAt) ∧
+      (∀ oj o, (p.runLoop trig c st0 ins).1[j]? = some oj → oj.calls.head? = some (.size, o) →
+        ik.nowErr + c.R ≤ ij.now1)) := by
+  rw [trans_runLoop p theShape theShape_wf c hM trig st0 ins hov] at hok ⊢
   exact C15_backoff theShape theShape_wf c trig st0 prev ins hwt k ik ok hik hok
 
-/-- `C15_deadline_not_postponed` for the translated loop: under an arbitrary stream of interrupts `retryAt` does not change,
-    every iteration before the deadline arms its timer for exactly the deadline, and from the deadline on the back-off case
-    is not taken -/
+/-- `C15_size_retry_kept` (finding F4, repaired) for the translated loop: after an iteration that asked `Size()` and got an error,
+    no later iteration asks `Size()` before `RetryInterval` has passed, whatever ended the waits in between -/
+theorem C15_size_retry_kept_trans (p : Par) (c : Cfg) (hM : c.M = maxDur) (trig : Trig) (st0 : BState) (prev : Int)
+    (ins : List In) (hov : NoOvfRun c trig st0 ins) (hwt : WellTimed theShape c trig st0 prev ins)
+    (k j : Nat) (ik ij : In) (ok oj : Out) (o : Outcome) (hkj : k < j) (hik : ins[k]? = some ik) (hij : ins[j]? = some ij)
+    (hok : (p.runLoop trig c st0 ins).1[k]? = some ok) (hoj : (p.runLoop trig c st0 ins).1[j]? = some oj)
+    (hk : ok.calls.head? = some (.size, .err)) (hj : oj.calls.head? = some (.size, o)) : ik.now1 + c.R ≤ ij.now1 := by
+  rw [trans_runLoop p theShape theShape_wf c hM trig st0 ins hov] at hok hoj
+  exact C15_size_retry_kept_wf theShape theShape_wf c trig st0 prev ins hwt k j ik ij ok oj o hkj hik hij hok hoj hk hj
+
+/-- `C15_deadline_not_postponed` for the translated loop: under an arbitrary stream of interrupts `retryAt` does not change
+    (unless the queue fails anew after the deadline), every iteration before the deadline arms its timer for exactly the deadline
+    and asks the queue nothing, and from the deadline on the back-off case is not taken -/
 theorem C15_deadline_not_postponed_trans (p : Par) (c : Cfg) (hM : c.M = maxDur) (trig : Trig) (st : BState) (r : Int)
-    (hr : st.retryAt = some r) (ins : List In) (hov : NoOvfRun c trig st ins) (hall : ∀ i ∈ ins, i.interrupted = true) :
+    (hr : st.retryAt = some r) (ins : List In) (hov : NoOvfRun c trig st ins) (hall : ∀ i ∈ ins, i.interrupted = true)
+    (hok : ∀ i ∈ ins, r ≤ i.now1 → i.size.isSome = true ∧ i.head ≠ .err) :
     (p.runLoop trig c st ins).2 = st ∧
     ∀ (k : Nat) (ik : In) (ok : Out), ins[k]? = some ik → (p.runLoop trig c st ins).1[k]? = some ok →
-      (∀ n, ik.size = some n → ik.now1 < r → ik.now2 + ok.armed = r) ∧
+      (ik.now1 < r → ik.now2 + ok.armed = r ∧ ok.calls = []) ∧
       (r ≤ ik.now1 → inBackoff theShape st ik.now1 = false) := by
   rw [trans_runLoop p theShape theShape_wf c hM trig st ins hov]
-  exact C15_deadline_not_postponed theShape theShape_wf c trig st r hr ins hall
+  exact C15_deadline_not_postponed theShape theShape_wf c trig st r hr ins hall hok
 
 /-- `C15_no_double_fire` for the translated loop over a queue that stores what is pushed: no (job, fire time) is dispatched twice -/
 theorem C15_no_double_fire_trans (p : Par) (c : Cfg) (hM : c.M = maxDur) (hthr : 0 ≤ c.thr) (trig : Trig)
